@@ -130,12 +130,23 @@ def replay_results(ctx, binname, focus, scn_path, n_scn, mode, scale="none", lab
                                          "Position.tla: %s [%s]" % (short(d["pre"]), d.get("pre_price"), ev_short(ev),
                                                                      d.get("got_price"), got, d["error"], where), rp))
                 counted = True
+            elif focus == "c15" and cls == "price" and ev["a"] == "Mkt" and ev["exp"]["pos"]["side"] != "none":
+                # a position is open and, after this market event, price() is not what the documented data
+                # state yields (L1 mid if the held top of book has both sides, else the last public trade):
+                # the estimate is left at / recomputed from an older price
+                got = d["got"]
+                stale = dec(got) is not None and dec(got) == dec(d.get("pre_price"))
+                found.append((prio, "Mkt:marked-at-%s-price" % ("older" if stale else "wrong"),
+                              "position %s, price before %s, event %s -> price() = %s (%s), so pnl_unrealised is not "
+                              "evaluated at the instrument's latest price [%s]" % (
+                                  short(d["pre"]), d.get("pre_price"), ev_short(ev), got, d["error"], where), rp))
+                counted = True
             else:
-                # not this property's verdict (bookkeeping under C15 / the data-state price model)
+                # not this property's verdict (bookkeeping under C15; a price divergence while flat)
                 notes = ctx.cov.setdefault("unjudged", [])
                 if len(notes) < 20:
                     notes.append({"where": where, "class": cls, "error": d["error"]})
-        if counted or any(d["class"] == "unreal" for d in items):
+        if counted or any(d["class"] in ("unreal", "price") for d in items):
             judged += 1
         else:
             unjudged += 1
